@@ -21,7 +21,7 @@ KINDS = ("int", "float", "npf", "npi")
 XKINDS = ("npu8", "npu64", "npi8", "npf32")          # numpy unsigned / narrow scalars
 INTK = ("int", "npi", "npu8", "npu64", "npi8")       # integer-valued kinds
 UNSIGNED = ("npu8", "npu64")
-MODEL_KIND = {"int": "int", "float": "float", "npf": "npf", "npi": "npi", "npu8": "npi", "npu64": "npi", "npi8": "npi", "npf32": "npf"}
+MODEL_KIND = {"frac": "float", "int": "int", "float": "float", "npf": "npf", "npi": "npi", "npu8": "npi", "npu64": "npi", "npi8": "npi", "npf32": "npf"}
 UNARY = ("exp", "log", "sqrt")
 
 
@@ -43,6 +43,9 @@ def mkconst(kind, v):
         return np.int8(v)
     if kind == "npf32":
         return np.float32(v)
+    if kind == "frac":
+        from fractions import Fraction
+        return Fraction(v)
     raise ValueError(kind)
 
 
@@ -116,10 +119,11 @@ def make_box(rng, cls):
     raise ValueError(cls)
 
 
-def distinct_steps_box(rng, sign):
+def distinct_steps_box(rng, sign, n=None):
     """every step different (no plateaus): a reversed or shifted index shows at every position"""
-    l = sorted(rng.sample(range(1, 2000), N))
-    w = [rng.randint(0, 40) for _ in range(N)]
+    n = n or N
+    l = sorted(rng.sample(range(1, 2000), n))
+    w = [rng.randint(0, 40) for _ in range(n)]
     r = [a + b for a, b in zip(l, w)]
     r = [int(x) for x in np.maximum.accumulate(r)]
     if sign == "neg":
@@ -228,6 +232,9 @@ def build_operand(c):
     if rp == "intderived":   # integer arithmetic keeps the integer dtype
         K = S(left=np.array([x - 1 for x in l], dtype=np.int64), right=np.array([x - 1 for x in r], dtype=np.int64))
         return K + 1
+    if rp in ("f32arr", "f16arr", "longdouble"):     # the values are exactly representable in the narrow dtype
+        dt = {"f32arr": np.float32, "f16arr": np.float16, "longdouble": np.longdouble}[rp]
+        return S(left=np.array(l, dtype=dt), right=np.array(r, dtype=dt))
     if rp == "minmax":
         from pyuncertainnumber import pba
         return pba.min_max(int(l[0]), int(r[0]))
@@ -245,12 +252,41 @@ def operand_intact(c, P):
 
 
 # ---- the real code --------------------------------------------------------------------------------
-def run_impl(c, keep=None):
-    """canonical result of the real call; `keep` (a dict) receives the live result and operand objects"""
-    import warnings
+@__import__("contextlib").contextmanager
+def grid(n):
+    """the public discretisation set to n steps, and set back whatever happens"""
+    from pyuncertainnumber.pba.params import Params
+    old = (Params.steps, Params.p_values)
     try:
-        with warnings.catch_warnings():
-            warnings.simplefilter("ignore")
+        Params.steps = n
+        Params.p_values = np.linspace(Params.p_lboundary, Params.p_hboundary, n)
+        yield
+    finally:
+        Params.steps, Params.p_values = old
+
+
+def ambient():
+    from pyuncertainnumber.pba.params import Params
+    from pyuncertainnumber.pba.context import get_current_dependency
+    return (Params.steps, len(Params.p_values), float(Params.p_values[0]), float(Params.p_values[-1]), str(get_current_dependency()),
+            tuple(sorted(np.geterr().items())), len(__import__("warnings").filters))
+
+
+def run_impl(c, keep=None, strict=False):
+    """canonical result of the real call; `keep` (a dict) receives the live result and operand objects"""
+    import warnings, contextlib
+    try:
+        with contextlib.ExitStack() as stack:
+            if strict:
+                # escalated floating-point errors and warnings: same value or an exception, never another value
+                stack.enter_context(np.errstate(all="raise"))
+                stack.enter_context(warnings.catch_warnings())
+                warnings.simplefilter("error")
+            else:
+                stack.enter_context(warnings.catch_warnings())
+                warnings.simplefilter("ignore")
+            if c.get("n", N) != N:
+                stack.enter_context(grid(c["n"]))
             P = build_operand(c)
             if keep is not None:
                 keep["operand"] = P
@@ -298,19 +334,19 @@ def wire(c):
     k = c["k"]
     b = pbx.wire_pb(*c["box"])
     if k == "num":
-        return f"numk {N} {MODEL_KIND[c['ckind']]} {c['op']} {b} {core.q(c['c'])}"
+        return f"numk {c.get('n', N)} {MODEL_KIND[c['ckind']]} {c['op']} {b} {core.q(c['c'])}"
     if k == "rnum":
-        return f"rnumk {N} {MODEL_KIND[c['ckind']]} {c['op']} {core.q(c['c'])} {b}"
+        return f"rnumk {c.get('n', N)} {MODEL_KIND[c['ckind']]} {c['op']} {core.q(c['c'])} {b}"
     if k in ("neg", "recip"):
-        return f"{k} {N} {b}"
+        return f"{k} {c.get('n', N)} {b}"
     if k == "un":
         fl, fr, _ = supplied(c)
-        return f"un {N} {c['f']} {b} {core.ql(fl)} {core.ql(fr)}"
+        return f"un {c.get('n', N)} {c['f']} {b} {core.ql(fl)} {core.ql(fr)}"
     if k == "pow":
         if c["ckind"] in INTK:
-            return f"pown {N} {b} {int(c['c'])}"
+            return f"pown {c.get('n', N)} {b} {int(c['c'])}"
         fl, fr, _ = supplied(c)
-        return f"poww {N} {b} {core.ql(fl)} {core.ql(fr)}"
+        return f"poww {c.get('n', N)} {b} {core.ql(fl)} {core.ql(fr)}"
     raise ValueError(k)
 
 
@@ -669,7 +705,103 @@ def gen_cases(ctx):
         cases.append(new_case("pow", box, intbox=intbox, ckind=kind, c=cv, bcls=bc, stream="pow", via=rng.choice(["bare", "method"])))
     cases += extra_cases(ctx)
     cases += round4_cases(ctx)
+    cases += round7_cases(ctx)
     return cases
+
+
+def round7_cases(ctx):
+    """floating dtypes of the stored bounds, Fraction constants, another public discretisation, identity maps (aliasing)"""
+    from fractions import Fraction
+    rng = ctx.rng
+    cases = []
+    nondy = [0.1, 1.0 / 3.0, math.pi, -0.7, 1e-9, -1e-9, 1.0 + 2.0 ** -30]
+    # (S) bounds handed over as float32 / float16 / longdouble arrays (values exactly representable there): every result
+    # must be the binary64 computation of the same values
+    for rp in ("f32arr", "f16arr", "longdouble"):
+        for op in OPS:
+            for order in ("num", "rnum"):
+                bc = rng.choice(["pos", "neg"]) if (order == "rnum" and op == "div") else rng.choice(["pos", "neg", "str"])
+                box = make_box(rng, bc) if rng.random() < 0.5 else distinct_steps_box(rng, bc)
+                kind = rng.choice(["float", "npf"])
+                cv = rng.choice(nondy[:4] if op in ("mul", "div") else nondy)
+                cases.append(new_case(order, box, repr=rp, op=op, ckind=kind, c=cv, ccls="pos" if cv > 0 else "neg", bcls=bc,
+                                      stream="dtype", via=rng.choice(["bare", "method"])))
+        cases.append(new_case("num", distinct_steps_box(rng, "pos"), repr=rp, op="div", ckind="int", c=3, ccls="pos", bcls="pos", stream="dtype", via="bare"))
+        cases.append(new_case("neg", distinct_steps_box(rng, "pos"), repr=rp, bcls="pos", stream="dtype"))
+        for via in ("method", "ufunc"):
+            cases.append(new_case("recip", distinct_steps_box(rng, rng.choice(["pos", "neg"])), repr=rp, bcls="distinct", stream="dtype", via=via))
+        for f in UNARY:
+            cases.append(new_case("un", make_box(rng, "pos"), repr=rp, f=f, bcls="pos", stream="dtype", via=rng.choice(["method", "ufunc"])))
+        for kind, cv in (("float", 0.5), ("npf", 1.5), ("int", 3), ("float", 2.0), ("npf32", 2.0)):
+            cases.append(new_case("pow", make_box(rng, "pos"), repr=rp, ckind=kind, c=cv, bcls="pos", stream="dtype", via=rng.choice(["bare", "method"])))
+    # (S) Fraction constants are Numbers and are accepted: same result as the rational they denote
+    for fr_ in (Fraction(1, 3), Fraction(-7, 2), Fraction(22, 7), Fraction(0), Fraction(10 ** 18 + 1, 3)):
+        for op in OPS:
+            for order in ("num", "rnum"):
+                bc = rng.choice(["pos", "neg"]) if (order == "rnum" and op == "div") else rng.choice(["pos", "neg", "str"])
+                cc = "zero" if fr_ == 0 else ("pos" if fr_ > 0 else "neg")
+                cases.append(new_case(order, make_box(rng, bc), op=op, ckind="frac", c=fr_, ccls=cc, bcls=bc, stream="fraction", via="bare"))
+    # (P ii) another public discretisation (Params.steps / p_values set, used, set back in run_impl)
+    for n in (100, 40, 300):
+        for op in OPS:
+            for order in ("num", "rnum"):
+                sg = rng.choice(["pos", "neg"]) if (order == "rnum" and op == "div") else rng.choice(["pos", "neg", "str"])
+                kind = rng.choice(KINDS)
+                cc = rng.choice(["neg", "pos", "m1"])
+                cases.append(new_case(order, distinct_steps_box(rng, sg, n), n=n, op=op, ckind=kind, c=const_value(rng, kind, cc, True), ccls=cc,
+                                      bcls=f"grid{n}", stream="grid-n", via=rng.choice(["bare", "method"])))
+        cases.append(new_case("neg", distinct_steps_box(rng, "str", n), n=n, bcls=f"grid{n}", stream="grid-n"))
+        cases.append(new_case("recip", distinct_steps_box(rng, "neg", n), n=n, bcls=f"grid{n}", stream="grid-n", via="ufunc"))
+        for f in UNARY:
+            b = distinct_steps_box(rng, "pos", n)
+            b = ([x / 8.0 for x in b[0]], [x / 8.0 for x in b[1]])
+            cases.append(new_case("un", b, n=n, f=f, bcls=f"grid{n}", stream="grid-n", via=rng.choice(["method", "ufunc"])))
+        cases.append(new_case("pow", distinct_steps_box(rng, "neg", n), n=n, ckind="int", c=2, bcls=f"grid{n}", stream="grid-n", via="bare"))
+        cases.append(new_case("pow", distinct_steps_box(rng, "pos", n), n=n, ckind="float", c=0.5, bcls=f"grid{n}", stream="grid-n", via="method"))
+    # (Q) identity maps: the result must be a new p-box that shares no memory with the operand or the caller's arrays
+    for order, op, kind, cv in (("num", "add", "int", 0), ("num", "sub", "float", 0.0), ("num", "mul", "int", 1), ("num", "div", "npf", 1.0),
+                                ("rnum", "add", "float", 0.0), ("rnum", "mul", "npi", 1), ("num", "add", "npf", 0.0), ("num", "mul", "float", 1.0)):
+        for bc in ("pos", "str"):
+            cases.append(new_case(order, distinct_steps_box(rng, bc), op=op, ckind=kind, c=cv, ccls="zero" if cv == 0 else "one",
+                                  bcls=bc, stream="alias-id", via=rng.choice(["bare", "method"])))
+    for kind, cv in (("int", 1), ("float", 1.0)):
+        cases.append(new_case("pow", distinct_steps_box(rng, "pos"), ckind=kind, c=cv, bcls="pos", stream="alias-id", via="bare"))
+    return cases
+
+
+def alias_check(ctx, c):
+    """(Q) operand built from the caller's float64 arrays of exactly the configured length; the result may not be the
+    operand, may not share memory with it or with the caller's arrays, and must survive their in-place mutation"""
+    import warnings
+    l, r = c["box"]
+    bufL, bufR = np.array(l, dtype=np.float64), np.array(r, dtype=np.float64)
+    with warnings.catch_warnings():
+        warnings.simplefilter("ignore")
+        P = pbx.Staircase()(left=bufL, right=bufR)
+    keep = {}
+    impl = run_impl({**c, "_obj": P}, keep)
+    ctx.bump("alias-checked")
+    if impl[0] != "ok" or "result" not in keep:
+        return
+    res, bad = keep["result"], None
+    if res is P:
+        bad = "the result is the operand object itself"
+    else:
+        for nm in ("left", "right"):
+            arr = np.asarray(getattr(res, nm))
+            for onm, o in (("the caller's left array", bufL), ("the caller's right array", bufR),
+                           ("the operand's left bound", np.asarray(P.left)), ("the operand's right bound", np.asarray(P.right))):
+                if bad is None and np.shares_memory(arr, o):
+                    bad = f"result.{nm} shares memory with {onm}"
+    if bad is None:
+        bufL += 5.0; bufR += 5.0
+        np.asarray(P.left)[...] = -1.0
+        np.asarray(P.right)[...] = 7.0
+        if repr(pbx.canon_pb(res)) != repr(impl):
+            bad = "the result changed when the caller's arrays / the operand's bounds were overwritten in place"
+    if bad is not None:
+        ctx.fail({**features(c), "check": "caller-aliasing", "symptom": "aliasing"}, case_json(c, impl, full=True),
+                 f"{describe_full(c)}: {bad}")
 
 
 def round4_cases(ctx):
@@ -817,6 +949,8 @@ def identities(c, impl):
     with warnings.catch_warnings():
         warnings.simplefilter("ignore")
         try:
+            if c.get("n", N) != N:
+                return None      # identities are checked at the default grid (the live operand belongs to its own grid)
             P = pbx.stair(*c["box"])
             if c["k"] == "neg":
                 back = pbx.canon_pb(-(-P))
@@ -939,6 +1073,7 @@ def run(ctx: core.Check):
                    generators=[("number operations of pbox_abc.py (numops translator)", _gen)])
     cases = gen_cases(ctx)
     replies = core.model_batch("C06", [wire(c) for c in cases])
+    amb0, amb_reported = ambient(), []
     recorded = []
     alive, pending = [], []   # live result objects of recent cases ; cases scheduled for a second evaluation
 
@@ -965,7 +1100,7 @@ def run(ctx: core.Check):
         impl = evaluate(ctx, c, rep, keep)
         if impl[0] == "ok" and "result" in keep:
             alive.append({"case": c, "result": keep["result"], "operand": keep["operand"], "canon": impl})
-        if idx % 6 == 2 and impl[0] == "ok" and "result" in keep and all(math.isfinite(v) for v in impl[1] + impl[2]):
+        if idx % 6 == 2 and c.get("n", N) == N and impl[0] == "ok" and "result" in keep and all(math.isfinite(v) for v in impl[1] + impl[2]):
             # (F) the operand is used again after the call, and the result becomes the operand of the next call
             nxt = FOLLOW[(idx // 6) % len(FOLLOW)]
             c2 = new_case(nxt[0], c["box"], intbox=c["intbox"], repr=c.get("repr", "float"), bcls=c.get("bcls", "-"),
@@ -975,6 +1110,22 @@ def run(ctx: core.Check):
             for cx in (c2, c3):
                 ctx.count(("follow", idx, cx["stream"]), True, cx["stream"])
                 evaluate(ctx, cx, None)
+        if ambient() != amb0:
+            if not amb_reported:
+                amb_reported.append(1)
+                ctx.fail({**features(c), "check": "ambient-state", "symptom": "state-leaked"}, case_json(c, impl, full=True),
+                         f"{describe_full(c)}: Params / dependency context / numpy error state / warning filters differ after the call: "
+                         f"{ambient()} vs {amb0}")
+        if idx % 5 == 3 and impl[0] in ("ok", "err"):
+            # (P i) the same call with floating-point errors raised and warnings escalated: same value, or an exception
+            st = run_impl(c, strict=True)
+            ctx.bump("strict:" + ("same" if repr(st) == repr(impl) else "raised" if st[0] == "err" else "DIFFERENT"))
+            if st[0] != "err" and repr(st) != repr(impl):
+                ctx.fail({**features(c), "check": "strict-fp", "symptom": "different-value"}, case_json(c, st, full=True),
+                         f"{describe_full(c)}: under np.errstate(all='raise') and warnings escalated to errors the call returns a different "
+                         f"result than under the default settings")
+        if c["stream"] == "alias-id" or (idx % 8 == 5 and c.get("repr", "float") == "float" and c.get("n", N) == N and "_obj" not in c):
+            alias_check(ctx, c)
         if idx % 7 == 0:
             pending.append((idx + 5, c, impl))
         if idx % 4 == 1 and len(recorded) < 400:
